@@ -251,10 +251,19 @@ def run(rep, ctx):
         from . import c04 as _c04
         _c04.r04_4(rep, M, "R18.8")
         _c04.r04_1(rep, M, "R18.8")
+        _c04.masked_index_spaces(rep, M, "R18.8")
     rep.rule("R18.7", "thresholds and radii of the classifier reach the region search; nothing nondeterministic is reachable (shared with C17)")
     with rep.guard("R18.7"):
         c17.r17_6(rep, M, "R18.7")
         c17.r17_5(rep, M, "R18.7")
+    rep.rule("R18.9", "the search for the atoms inside a candidate cell covers every periodic image the cell reaches into (shared with C04)")
+    with rep.guard("R18.9"):
+        from . import c04 as _c04w
+        _c04w.within_basis(rep, M, "R18.9")
+    rep.rule("R18.10", "no function keeps results in module-level state or functools caches (answers do not depend on what the process analysed before)")
+    with rep.guard("R18.10"):
+        from .. import symrules as _SRms
+        _SRms.module_state(rep, ctx.model, "R18.10")
     rep.floor("R18.1", 8)
     rep.floor("R18.2", 3)
     rep.floor("R18.3", 8)
